@@ -885,7 +885,101 @@ func c20T1One(c *hx.Ctx, w, h, orient, style int, x []int32, tag string) {
 	}
 }
 
+// c20T1Corr: correspondence of the code-shaped T1 model (style 0): encoder bytes and decoder coefficients.
+// c20T1Corr ties Model/T1.lean to the code: Encode for any style without LAZY, DecodeWithBitplane (one codeword
+// segment) for the styles that also lack TERMALL.
+func c20T1Corr(c *hx.Ctx, w, h, orient, style int, x []int32, numPasses int, tag string) {
+	var enc []byte
+	var err error
+	p, _ := hx.Guard(func() {
+		e := t1.NewT1Encoder(w, h, style)
+		e.SetOrientation(orient)
+		enc, err = e.Encode(x, numPasses, 0)
+	})
+	op := fmt.Sprintf("t1-enc %d %d %d %d %d %s", w, h, orient, style, numPasses, c20Ints(x))
+	switch {
+	case p:
+		c.Case(op, "panic")
+		return
+	case err != nil:
+		c.Case(op, "err")
+		return
+	}
+	c.Case(op, "ok "+hx.Hex(enc))
+	c.Count("t1corr:" + tag)
+	c.Count(fmt.Sprintf("t1corr:style=%02x", style))
+	if style&t1.CblkStyleTermAll != 0 {
+		return
+	}
+	mb := c20MaxBitplane(x)
+	if mb < 0 {
+		mb = 0
+	}
+	dec := func(data []byte, np, mb int) {
+		var got []int32
+		var derr error
+		pd, _ := hx.Guard(func() {
+			d := t1.NewT1Decoder(w, h, style)
+			d.SetOrientation(orient)
+			derr = d.DecodeWithBitplane(data, np, mb, 0)
+			got = d.GetData()
+		})
+		op := fmt.Sprintf("t1-dec %d %d %d %d %d %d %s", w, h, orient, style, np, mb, hx.Hex(data))
+		switch {
+		case pd:
+			c.Case(op, "panic")
+		case derr != nil:
+			c.Case(op, "err")
+		default:
+			c.Case(op, "ok "+c20Ints(got))
+		}
+	}
+	dec(enc, numPasses, mb)
+	if len(enc) > 2 && c.R.Intn(4) == 0 { // truncated / damaged data: decoder outcome must still agree
+		m := append([]byte{}, enc[:c.R.Range(1, len(enc))]...)
+		m[c.R.Intn(len(m))] ^= byte(1 << uint(c.R.Intn(8)))
+		dec(m, numPasses, mb)
+	}
+}
+
 func c20T1(c *hx.Ctx) {
+	// code-shaped model (styles without LAZY): blocks up to 8x8 (and a few taller ones for the stripe/run-length logic)
+	nCorr := 320
+	if c.Thorough() {
+		nCorr = 2500
+	}
+	for k := 0; k < nCorr; k++ {
+		w, h := c.R.Range(1, 8), c.R.Range(1, 8)
+		if k%9 == 0 {
+			h = c.R.Range(9, 13)
+		}
+		x := c20T1Block(c.R, w, h, c.R.Pick([]int{0, 1, 1, 2, 4, 4, 5}))
+		if k%7 == 0 {
+			for i := range x {
+				x[i] >>= 20 // small magnitudes: few bit-planes
+			}
+		}
+		mb := c20MaxBitplane(x)
+		np := 1
+		if mb >= 0 {
+			np = 3*(mb+1) - 2
+			if c.R.Intn(3) == 0 {
+				np = c.R.Range(1, np) // truncated pass count
+			}
+		}
+		style := 0
+		if k%2 == 1 {
+			style = 2 * c.R.Intn(32) // any style without the LAZY bit
+		}
+		c20T1Corr(c, w, h, c.R.Intn(4), style, x, np, "random")
+	}
+	for style := 0; style < 64; style += 2 { // every modelled style at least once, all passes
+		x := c20T1Block(c.R, 5, 6, 2)
+		c20T1Corr(c, 5, 6, style/2%4, style, x, 3*(c20MaxBitplane(x)+1)-2, "all-styles")
+	}
+	c20T1Corr(c, 1, 1, 0, 0, []int32{0}, 1, "zero")
+	c20T1Corr(c, 3, 2, 1, 34, []int32{0, 0, 0, 0, 0, 0}, 1, "zero")
+	c20T1Corr(c, 2, 2, 0, 0, []int32{1, 2, 3}, 4, "bad-size")
 	// generated context tables vs the tables the package exports
 	zc, sc, spb := t1.GetZeroCodingLUT(), t1.GetSignContextLUT(), t1.GetSignPredictionLUT()
 	for i, v := range zc {
